@@ -19,13 +19,53 @@ def mkCD (T : Tables) (ca : Atoms) : CompoundData :=
     massFractions := ca.map (fun e => cdiv (atomicWeight T e.1 * e.2) sum),
     nAtomsAll := ca.foldl (fun acc e => acc + e.2) 0, molarMass := sum }
 
-theorem compoundParser_result_ok (T : Tables) (l : Locale) (s : List Char) {ca : Atoms} {k : Nat}
-    (h : parseSimple T (s.length + 1) s = .ok (ca, k)) : (compoundParser T l (some s)).result = .ok (mkCD T ca) := by
-  simp only [compoundParser, h, mkCD]
+theorem compoundParser_result_ok (v : Variant) (T : Tables) (l : Locale) (s : List Char) {ca : Atoms} {k : Nat}
+    (h : parseSimple T (s.length + 1) s = .ok (ca, k))
+    (hw : v.weightFix = false ∨ ∀ e ∈ ca, atomicWeight T e.1 ≠ 0) :
+    (compoundParser v T l (some s)).result = .ok (mkCD T ca) := by
+  have hc : (v.weightFix && ca.any (fun e => decide (atomicWeight T e.1 = 0))) = false := by
+    rcases hw with hw | hw
+    · simp [hw]
+    · rw [Bool.and_eq_false_iff]; right
+      rw [List.any_eq_false]
+      intro e he; simpa using hw e he
+  simp only [compoundParser, h, mkCD, hc]
+  rfl
 
-theorem compoundParser_result_err (T : Tables) (l : Locale) (s : List Char) {f : Fail}
-    (h : parseSimple T (s.length + 1) s = .error f) : (compoundParser T l (some s)).result = .error f.err := by
+theorem compoundParser_result_weightless (v : Variant) (T : Tables) (l : Locale) (s : List Char) {ca : Atoms} {k : Nat}
+    (h : parseSimple T (s.length + 1) s = .ok (ca, k))
+    (hv : v.weightFix = true) (hw : ∃ e ∈ ca, atomicWeight T e.1 = 0) :
+    (compoundParser v T l (some s)).result = .error .zRange := by
+  have hc : (v.weightFix && ca.any (fun e => decide (atomicWeight T e.1 = 0))) = true := by
+    obtain ⟨e, he, h0⟩ := hw
+    rw [hv, Bool.true_and, List.any_eq_true]
+    exact ⟨e, he, by simpa using h0⟩
+  simp only [compoundParser, h, hc]
+  rfl
+
+theorem compoundParser_result_err (v : Variant) (T : Tables) (l : Locale) (s : List Char) {f : Fail}
+    (h : parseSimple T (s.length + 1) s = .error f) : (compoundParser v T l (some s)).result = .error f.err := by
   simp only [compoundParser, h]
+
+/-- `LC_NUMERIC` after a call with a non-NULL string -/
+theorem compoundParser_locale (v : Variant) (T : Tables) (l : Locale) (s : List Char) :
+    (compoundParser v T l (some s)).locale = if v.localeFix = true then l else ⟨['C']⟩ := by
+  cases hv : v.localeFix
+  · simp only [compoundParser, setlocaleNumeric, hv, Bool.false_eq_true, if_false]
+    split
+    · split <;> rfl
+    · rfl
+  · simp only [compoundParser, setlocaleNumeric, hv, if_true]
+    split
+    · split <;> rfl
+    · rfl
+
+theorem compoundParser_live_fixed (v : Variant) (hv : v.leakFix = true) (T : Tables) (l : Locale) (s : List Char) :
+    liveAfterFree (compoundParser v T l (some s)) = 0 := by
+  simp only [compoundParser, hv, if_true]
+  split
+  · split <;> rfl
+  · rfl
 
 theorem foldl_add_eq (h : Nat × Rat → Rat) (l : Atoms) (a : Rat) :
     l.foldl (fun acc e => acc + h e) a = a + sumL (l.map h) := by
@@ -137,6 +177,66 @@ theorem exists_eval_pos (E : Elements) {f : Formula} (hne : f ≠ .nil) (hf : f.
     simp only [Formula.eval]
     have : 0 < sub.value * inner.eval E z := by positivity
     linarith
+
+theorem eval_pos_of_occurs (E : Elements) {f : Formula} (hk : f.Known E) {z : Nat} (h : f.Occurs E z) : 0 < f.eval E z := by
+  induction f with
+  | nil => exact absurd h (by simp [Formula.Occurs])
+  | atom sym sub rest ih =>
+    have hv := sub_value_pos hk.2.1
+    have hr := eval_nonneg E rest z
+    simp only [Formula.eval]
+    rcases h with h | h
+    · simp only [h, if_true]; linarith
+    · have := ih hk.2.2 h
+      split <;> linarith
+  | group inner sub rest ih1 ih2 =>
+    have hv := sub_value_pos hk.2.2.1
+    have hi := eval_nonneg E inner z
+    have hr := eval_nonneg E rest z
+    simp only [Formula.eval]
+    rcases h with h | h
+    · have := ih1 hk.2.1 h
+      have : 0 < sub.value * inner.eval E z := by positivity
+      linarith
+    · have := ih2 hk.2.2.2 h
+      have : 0 ≤ sub.value * inner.eval E z := by positivity
+      linarith
+
+theorem atomicWeight_nonneg (T : Tables) (z : Nat) : 0 ≤ atomicWeight T z := by
+  unfold atomicWeight
+  split
+  · exact le_refl 0
+  · simp only []
+    split
+    · exact le_refl 0
+    · linarith
+
+/-- a well-formed formula with an element without atomic weight yields an array entry of weight 0 -/
+theorem exists_weightless_entry (T : Tables) {f : Formula} (hf : f.WF (elementsOf T)) (hnw : ¬ f.Weighted (elementsOf T))
+    {ca : Atoms} (h : Inv ca (f.eval (elementsOf T))) : ∃ e ∈ ca, atomicWeight T e.1 = 0 := by
+  unfold Formula.Weighted at hnw
+  simp only [not_forall] at hnw
+  obtain ⟨z, hocc, hno⟩ := hnw
+  have h0 : atomicWeight T z = 0 := by
+    by_contra hne
+    apply hno
+    refine ⟨atomicWeight T z, by simp [elementsOf, hne], ?_⟩
+    exact lt_of_le_of_ne (atomicWeight_nonneg T z) (Ne.symm hne)
+  have hpos := eval_pos_of_occurs _ hf.2.2 hocc
+  rw [← h.count] at hpos
+  have hm := mem_keys_of_cnt_pos hpos
+  obtain ⟨e, he, rfl⟩ := List.mem_map.1 hm
+  exact ⟨e, he, h0⟩
+
+theorem weight_pos_of_weighted (T : Tables) {f : Formula} (hw : f.Weighted (elementsOf T)) {ca : Atoms}
+    (h : Inv ca (f.eval (elementsOf T))) {e : Nat × Rat} (he : e ∈ ca) : 0 < atomicWeight T e.1 := by
+  have hpos : 0 < f.eval (elementsOf T) e.1 := by rw [← h.count, cnt_of_mem h.sorted he]; exact h.pos e he
+  obtain ⟨w, hw1, hw2⟩ := hw e.1 (occurs_of_eval_pos _ hpos)
+  simp only [elementsOf] at hw1
+  by_cases h0 : atomicWeight T e.1 = 0
+  · simp [h0] at hw1
+  · simp only [h0, if_false, Option.some.injEq] at hw1
+    rw [hw1]; exact hw2
 
 theorem pairwise_strictAsc {l : List Nat} (h : l.Pairwise (· < ·)) : StrictAsc l := by
   induction l with
